@@ -346,3 +346,14 @@ def c06(prop, tier):
                        CASE_ASSUME + ["blob states are produced by uploads / by a fake backend, the 'absent' state by never uploading; eviction by earlier traffic is covered through C05's traces",
                                       "the fail-fast race schedule found by TLC is replayed through the verif gate findmissing.wait"],
                        "tlc ActionCache.tla + FindMissing.tla (fail-fast) + vh acdeps / acrace")
+
+
+@check("C11")
+def c11(prop, tier):
+    models = [
+        ("ActionCache/uploads", "ActionCache.tla", "ActionCache_N.cfg", "all histories of <= 2 uploads to one action key over 4 encodings x 23 message classes (7 valid, 16 invalid kinds): stored message always valid, latest accepted wins", "ac"),
+    ]
+    drivers = [("achist", ["achist", "-cases", "{ac}", "-tier", "{tier}", "-seed", "{seed}"])]
+    return multi_check(prop, tier, models, drivers,
+                       CASE_ASSUME + ["message classes are concretised with random paths, digests and optional valid fields; equality is proto.Equal after undoing the documented server-side changes (worker filled in when absent, inline contents replaced by their true digest)"],
+                       "tlc ActionCache.tla (upload histories) + vh achist")
